@@ -850,14 +850,15 @@ ares_status_t ares_servers_update(ares_channel_t *channel,
     channel->optmask |= ARES_OPT_SERVERS;
   }
 
-  /* Clear any cached query results only if the server list changed */
+  status = ARES_SUCCESS;
+
+done:
+  /* Clear any cached query results only if the server list changed, that
+   * includes a change that was abandoned half way (out of memory) */
   if (list_changed) {
     ares_qcache_flush(channel->qcache);
   }
 
-  status = ARES_SUCCESS;
-
-done:
   return status;
 }
 
